@@ -32,6 +32,18 @@ pub fn apply_file_system_operations(
     crate::write_artifacts::apply_file_system_operations(operations, artifacts)
 }
 
+pub fn write_artifacts_to_disk(
+    paths_and_contents: &[ArtifactPathAndContent],
+    artifact_directory: &Path,
+    file_system_state: &mut Option<FileSystemState>,
+) -> LocationFreeDiagnosticResult<usize> {
+    crate::write_artifacts::write_artifacts_to_disk(
+        paths_and_contents,
+        artifact_directory,
+        file_system_state,
+    )
+}
+
 #[derive(Debug, Clone, Copy, PartialEq, Eq)]
 pub enum FaultKind {
     /// the operation fails before it has any effect
